@@ -48,7 +48,7 @@ CC(cts) == [i \in 1..Len(cts) |-> IF IsKwIn(cts[i], {"currentcolor"}) THEN Curre
 \* border-color: 1-4 colours; the CSS-wide keyword `initial` is only valid as the whole value
 BorderColor(cts) ==
   LET x == CC(InitialIs(cts, CurrentColor)) IN
-  IF \E i \in 1..Len(x) : IsKwIn(x[i], {"initial"}) THEN <<Marker("invalid: initial inside a list")>> \o x
+  IF \E i \in 1..Len(x) : IsKwIn(x[i], {"initial"}) THEN <<Invalid>> \o x
   ELSE TRBL(x)
 
 (* ---- flex: <grow> <shrink>? || <basis>  (CSS Flexbox 1 section 7.1.1) ---- *)
@@ -299,7 +299,7 @@ UnicodeRange(cts) ==
       ivs == {<<a, MinOf({e \in ends : e >= a})>> : a \in starts}
       sorted == SetToSortSeq(ivs, LAMBDA p, q : p[1] < q[1])
   IN IF isInit THEN <<Mk("cps", "", <<0, MaxCP>>, <<>>)>>
-     ELSE IF ~okShape THEN cts
+     ELSE IF ~okShape THEN (IF \E i \in 1..Len(cts) : cts[i].c \in {"urange", "comma"} THEN <<OOD>> ELSE cts)
      ELSE IF \E j \in 1..n : ~rs[j].ok THEN <<OOD>>
      ELSE <<Mk("cps", "", Flatten([j \in 1..Len(sorted) |-> sorted[j]]), <<>>)>>
 =============================================================================
